@@ -17,7 +17,8 @@ EXPLANATION = ("Deductive: _calculate_scattering, Neutron.scattering_by_waveleng
 
 
 def units(tier):
-    return [N.U_CALC, N.U_SBW_PLAIN, N.U_SBW_TABLE, N.L_SUM_POSITIVE, N.U_NS_WAVELENGTH, N.U_NS_ENERGY, N.U_NS_DEFAULT]
+    return [N.U_CALC, N.U_SBW_PLAIN, N.U_SBW_TABLE, N.L_SUM_POSITIVE, N.U_NS_WAVELENGTH, N.U_NS_ENERGY, N.U_NS_DEFAULT,
+            N.U_NSCAT, N.U_NSLD, N.L_ELEMENT_VS_COMPOUND]
 
 
 def runner_tasks(tier):
